@@ -4,6 +4,7 @@
   (uniqueness at quiescence, settling) are exercised by the oracle on real stacks, see MANIFEST level note.
 -/
 import J1939.Model.Ca
+import J1939.Model.CaNet
 import J1939.Lemmas.Tactics
 import J1939.Lemmas.ConstCa
 import J1939.Props.C13
@@ -138,5 +139,358 @@ theorem c04_contender_value_exact (n : Name) (h : Lemmas.Name.WF n) :
 
 /-- the veto period is the reflected 250 ms -/
 theorem c04_veto_period : Const.Claim.VETO = 250000 := by decide
+
+/-! ## The network of CAs (Model/CaNet.lean): uniqueness at quiescence, the lowest NAME keeps the address -/
+section net
+open J1939.CaNet
+
+
+/-- the timer tick of a CA that waits for a veto makes it operational at the announced address; an operational or
+    cannot-claim CA is unchanged (whatever its preferred address) -/
+theorem c04_claim_progress_any (c : Ca.Ca) :
+    (c.state = WAIT_VETO → (claimAsync c).1.state = NORMAL ∧ (claimAsync c).1.addr = some c.announced ∧ (claimAsync c).2.1 = []) ∧
+    ((c.state = NORMAL ∨ c.state = CANNOT_CLAIM) → (claimAsync c).1 = c ∧ (claimAsync c).2.1 = []) := by
+  have hd := states_distinct
+  unfold claimAsync
+  refine ⟨?_, ?_⟩
+  · intro h1
+    have : (c.state == NONE) = false := by rw [h1]; simpa using (Ne.symm hd.2.2.2.1)
+    simp [h1, this]
+  · intro h1
+    rcases h1 with h1 | h1
+    · have e1 : (c.state == NONE) = false := by rw [h1]; simpa using (Ne.symm hd.1)
+      have e2 : (c.state == WAIT_VETO) = false := by rw [h1]; simpa using (Ne.symm hd.2.1)
+      simp [e1, e2]
+    · have e1 : (c.state == NONE) = false := by rw [h1]; simpa using (Ne.symm hd.2.2.2.2.1)
+      have e2 : (c.state == WAIT_VETO) = false := by rw [h1]; simpa using (Ne.symm hd.2.2.2.2.2)
+      simp [e1, e2]
+
+/-- the claim a CA at `a` puts on the bus, as the others receive it -/
+def claimMsg (c : Ca.Ca) (a : Nat) : Msg := { sa := a, data := Name.bytes c.name }
+
+theorem toMsg_claimFrame (c : Ca.Ca) (a : Nat) (h : a < 256) : toMsg (claimFrame c a) = claimMsg c a := by
+  unfold toMsg claimFrame claimMsg
+  simp only [Msg.mk.injEq, and_true]
+  rw [J1939.Props.C15.c15_id_parse_compose, Lemmas.ofFields_eq]
+  simp only
+  omega
+
+theorem claimAsync_name (c : Ca.Ca) : (claimAsync c).1.name = c.name := by
+  unfold claimAsync; crack
+
+theorem pac_name (c : Ca.Ca) (sa : Nat) (d : List Nat) : (processAddressClaim c sa d).1.name = c.name := by
+  unfold processAddressClaim; crack
+
+/-- whoever becomes "at" an address by a timer tick says so on the bus -/
+theorem claimAsync_newly_at (c : Ca.Ca) (a : Nat) (h : At (claimAsync c).1 a) (hn : ¬ At c a) :
+    (claimAsync c).2.1 = [claimFrame (claimAsync c).1 a] := by
+  have hd := states_distinct
+  by_cases h0 : c.state = NONE
+  · cases hp : c.preferred with
+    | none =>
+      have : claimAsync c = (c, [], 500000) := by unfold claimAsync; simp [h0, hp]
+      rw [this] at h; exact absurd h hn
+    | some p =>
+      obtain ⟨p1, p2, _, _⟩ := c04_claim_progress c p hp
+      by_cases hr : p > 127 ∧ p < 248
+      · obtain ⟨q1, q2, _, q4⟩ := p1 h0 hr
+        have : a = p := by
+          rcases h with ⟨_, e⟩ | ⟨e, _⟩
+          · rw [q2] at e; exact e.symm
+          · rw [q1] at e; exact absurd e hd.2.1
+        rw [this]; exact q4
+      · obtain ⟨q1, q2, q3⟩ := p2 h0 hr
+        have : a = p := by
+          rcases h with ⟨e, _⟩ | ⟨_, e⟩
+          · rw [q1] at e; exact absurd e.symm hd.2.1
+          · rw [q2] at e; exact (Option.some.inj e).symm
+        rw [this]; exact q3
+  · by_cases h1 : c.state = WAIT_VETO
+    · have e0 : (c.state == NONE) = false := by simpa using h0
+      have : claimAsync c = ({ c with addr := some c.announced, state := NORMAL }, [], 500000) := by
+        unfold claimAsync; simp [e0, h1]
+      rw [this] at h
+      rcases h with ⟨e, _⟩ | ⟨_, e⟩
+      · exact absurd e.symm hd.2.1
+      · exact absurd (Or.inl ⟨h1, Option.some.inj e⟩) hn
+    · have e0 : (c.state == NONE) = false := by simpa using h0
+      have e1 : (c.state == WAIT_VETO) = false := by simpa using h1
+      have : claimAsync c = (c, [], 500000) := by unfold claimAsync; simp [e0, e1]
+      rw [this] at h; exact absurd h hn
+
+/-- whoever becomes "at" an address while handling a claim says so on the bus -/
+theorem pac_newly_at (c : Ca.Ca) (sa : Nat) (d : List Nat) (a : Nat) (h : At (processAddressClaim c sa d).1 a) (hn : ¬ At c a) :
+    (processAddressClaim c sa d).2 = [claimFrame (processAddressClaim c sa d).1 a] := by
+  have hd := states_distinct
+  by_cases hat : At c sa
+  · rcases Nat.lt_trichotomy (Name.value c.name) (Name.value (Name.ofBytes d)) with hlt | heq | hgt
+    · rw [(c04_keeps_against_higher c sa d hat hlt).1] at h; exact absurd h hn
+    · rw [c04_same_name_ignored c sa d heq] at h; exact absurd h hn
+    · obtain ⟨l1, l2, _⟩ := c04_loser c sa d hat hgt
+      by_cases hc : c.name.arbitrary_address_capable = 0 ∨ 253 ≤ c.announced
+      · obtain ⟨s1, _, _⟩ := l1 hc
+        rcases h with ⟨e, _⟩ | ⟨e, _⟩
+        · rw [s1] at e; exact absurd e.symm hd.2.2.2.2.2
+        · rw [s1] at e; exact absurd e hd.2.2.1
+      · have hc' : c.name.arbitrary_address_capable ≠ 0 ∧ c.announced < 253 := by
+          constructor
+          · intro h'; exact hc (Or.inl h')
+          · omega
+        obtain ⟨s1, s2, _, s4⟩ := l2 hc'
+        have : a = c.announced + 1 := by
+          rcases h with ⟨_, e⟩ | ⟨e, _⟩
+          · rw [s2] at e; exact e.symm
+          · rw [s1] at e; exact absurd e hd.2.1
+        rw [this]; exact s4
+  · rw [c04_foreign_claim_ignored c sa d hat] at h; exact absurd h hn
+
+/-- a CA that handles a claim for its address from a LOWER NAME is no longer at that address afterwards -/
+theorem pac_loser_leaves (c : Ca.Ca) (a : Nat) (d : List Nat) (hat : At c a) (hinv : Inv c)
+    (hlow : Name.value (Name.ofBytes d) < Name.value c.name) : ¬ At (processAddressClaim c a d).1 a := by
+  have hd := states_distinct
+  have ha : c.announced = a := by
+    rcases hat with ⟨_, h⟩ | ⟨h1, h2⟩
+    · exact h
+    · have := hinv h1; rw [h2] at this; exact (Option.some.inj this).symm
+  obtain ⟨l1, l2, _⟩ := c04_loser c a d hat hlow
+  intro hat'
+  by_cases hc : c.name.arbitrary_address_capable = 0 ∨ 253 ≤ c.announced
+  · obtain ⟨s1, _, _⟩ := l1 hc
+    rcases hat' with ⟨h, _⟩ | ⟨h, _⟩
+    · rw [s1] at h; exact hd.2.2.2.2.2 h.symm
+    · rw [s1] at h; exact hd.2.2.1 h
+  · have hc' : c.name.arbitrary_address_capable ≠ 0 ∧ c.announced < 253 := by
+      constructor
+      · intro h; exact hc (Or.inl h)
+      · omega
+    obtain ⟨s1, s2, _, _⟩ := l2 hc'
+    rcases hat' with ⟨_, h⟩ | ⟨h, _⟩
+    · rw [s2] at h; omega
+    · rw [s1] at h; exact hd.2.1 h
+
+/-- THE NETWORK INVARIANT: NAMEs are well-formed, an operational CA holds the address it announced, and for any two
+    nodes that are both "at" one address (announced it and wait for a veto, or operational there) with different NAMEs,
+    the claim of the lower one is on its way to the higher one, or the claim of the higher one is on its way to the
+    lower one (which will answer it with its own claim) -/
+structure NetInv (n : Net) : Prop where
+  wf : ∀ i, Lemmas.Name.WF (n.ca i).name
+  inv : ∀ i, Inv (n.ca i)
+  pair : ∀ i j a, i ≠ j → a < 256 → At (n.ca i) a → At (n.ca j) a → Name.value (n.ca i).name < Name.value (n.ca j).name →
+    claimMsg (n.ca i) a ∈ n.q j ∨ claimMsg (n.ca j) a ∈ n.q i
+
+/-- one node `k` acts: its CA becomes `c'`, its queue `qk'` (unchanged, or the head `popped` removed), everybody else
+    receives `ms` -/
+theorem pair_preserved (n : Net) (k : Nat) (c' : Ca.Ca) (qk' ms : List Msg) (popped : Option Msg) (h : NetInv n)
+    (hname : c'.name = (n.ca k).name) (hinv : Inv c')
+    (hq : n.q k = (match popped with | none => qk' | some m => m :: qk'))
+    (hnew : ∀ a, a < 256 → At c' a → ¬ At (n.ca k) a → claimMsg c' a ∈ ms)
+    (hhigh : ∀ m, popped = some m → ∀ a j, a < 256 → At (n.ca k) a → At c' a → m = claimMsg (n.ca j) a →
+      Name.value (n.ca k).name < Name.value (n.ca j).name → claimMsg c' a ∈ ms)
+    (hlow : ∀ m, popped = some m → ∀ a i, a < 256 → At (n.ca k) a → m = claimMsg (n.ca i) a →
+      Name.value (n.ca i).name < Name.value (n.ca k).name → ¬ At c' a) :
+    NetInv { ca := fun x => if x = k then c' else n.ca x, q := fun x => if x = k then qk' else n.q x ++ ms } := by
+  have hmem : ∀ m, m ∈ n.q k → (popped = some m) ∨ m ∈ qk' := by
+    intro m hm
+    rw [hq] at hm
+    cases popped with
+    | none => exact Or.inr hm
+    | some m0 =>
+      simp only [List.mem_cons] at hm
+      rcases hm with rfl | hm
+      · exact Or.inl rfl
+      · exact Or.inr hm
+  have hcm : ∀ a, claimMsg c' a = claimMsg (n.ca k) a := by
+    intro a; simp only [claimMsg, hname]
+  refine ⟨?_, ?_, ?_⟩
+  · intro i
+    by_cases hi : i = k
+    · simp only [hi, if_true, hname]; exact h.wf k
+    · simp only [hi, if_false]; exact h.wf i
+  · intro i
+    by_cases hi : i = k
+    · simp only [hi, if_true]; exact hinv
+    · simp only [hi, if_false]; exact h.inv i
+  · intro i j a hij ha hati hatj hlt
+    by_cases hi : i = k
+    · -- the lower NAME acts
+      subst hi
+      have hj : ¬ j = i := fun e => hij e.symm
+      simp only [if_true, hj, if_false] at hati hatj hlt ⊢
+      rw [hname] at hlt
+      by_cases hold : At (n.ca i) a
+      · rcases h.pair i j a hij ha hold hatj hlt with h1 | h2
+        · left; rw [hcm]; exact List.mem_append_left _ h1
+        · rcases hmem _ h2 with hp | hin
+          · left; exact List.mem_append_right _ (hhigh _ hp a j ha hold hati rfl hlt)
+          · right; exact hin
+      · left; exact List.mem_append_right _ (hnew a ha hati hold)
+    · by_cases hj : j = k
+      · -- the higher NAME acts
+        subst hj
+        simp only [hi, if_false, if_true] at hati hatj hlt ⊢
+        rw [hname] at hlt
+        by_cases hold : At (n.ca j) a
+        · rcases h.pair i j a hij ha hati hold hlt with h1 | h2
+          · rcases hmem _ h1 with hp | hin
+            · exact absurd hatj (hlow _ hp a i ha hold rfl hlt)
+            · left; exact hin
+          · right; rw [hcm]; exact List.mem_append_left _ h2
+        · right; exact List.mem_append_right _ (hnew a ha hatj hold)
+      · simp only [hi, hj, if_false] at hati hatj hlt ⊢
+        rcases h.pair i j a hij ha hati hatj hlt with h1 | h2
+        · left; exact List.mem_append_left _ h1
+        · right; exact List.mem_append_left _ h2
+
+theorem bcast_eq (q : Nat → List Msg) (i : Nat) (qi ms : List Msg) :
+    bcast (fun x => if x = i then qi else q x) i ms = fun x => if x = i then qi else q x ++ ms := by
+  funext x
+  by_cases hx : x = i <;> simp [bcast, hx]
+
+theorem bcast_eq' (q : Nat → List Msg) (i : Nat) (ms : List Msg) :
+    bcast q i ms = fun x => if x = i then q i else q x ++ ms := by
+  funext x
+  by_cases hx : x = i <;> simp [bcast, hx]
+
+/-- EVERY EVENT PRESERVES THE INVARIANT -/
+theorem step_inv (n : Net) (e : CaNet.Ev) (h : NetInv n) : NetInv (step n e) := by
+  cases e with
+  | tick i =>
+    simp only [step, bcast_eq']
+    refine pair_preserved n i _ (n.q i) _ none h (claimAsync_name _) (c13_inv_claimAsync _ (h.inv i)) rfl ?_
+      (fun m hm => by cases hm) (fun m hm => by cases hm)
+    intro a ha hat hn
+    rw [claimAsync_newly_at _ a hat hn]
+    simp only [List.map_cons, List.map_nil, toMsg_claimFrame _ a ha, List.mem_singleton]
+  | deliver i =>
+    simp only [step]
+    cases hq : n.q i with
+    | nil => exact h
+    | cons m rest =>
+      simp only [bcast_eq]
+      refine pair_preserved n i _ rest _ (some m) h (pac_name _ _ _) (c13_inv_addressClaim _ _ _ (h.inv i)) hq ?_ ?_ ?_
+      · intro a ha hat hn
+        rw [pac_newly_at _ _ _ a hat hn]
+        simp only [List.map_cons, List.map_nil, toMsg_claimFrame _ a ha, List.mem_singleton]
+      · intro m' hm' a j ha hold _ hmj hlt
+        cases hm'
+        have hsa : m.sa = a := by rw [hmj]; rfl
+        have hdata : m.data = Name.bytes (n.ca j).name := by rw [hmj]; rfl
+        have hv : Name.value (Name.ofBytes m.data) = Name.value (n.ca j).name := by
+          rw [hdata]; exact c04_contender_value_exact _ (h.wf j)
+        obtain ⟨k1, k2⟩ := c04_keeps_against_higher (n.ca i) a m.data hold (by rw [hv]; exact hlt)
+        rw [hsa, k1, k2]
+        simp only [List.map_cons, List.map_nil, toMsg_claimFrame _ a ha, List.mem_singleton]
+      · intro m' hm' a i' ha hold hmi hlt
+        cases hm'
+        have hsa : m.sa = a := by rw [hmi]; rfl
+        have hdata : m.data = Name.bytes (n.ca i').name := by rw [hmi]; rfl
+        have hv : Name.value (Name.ofBytes m.data) = Name.value (n.ca i').name := by
+          rw [hdata]; exact c04_contender_value_exact _ (h.wf i')
+        rw [hsa]
+        exact pac_loser_leaves (n.ca i) a m.data hold (h.inv i) (by rw [hv]; exact hlt)
+  | request i sa dest data =>
+    simp only [step]
+    split
+    · rename_i f _
+      simp only [bcast_eq']
+      have := pair_preserved n i (n.ca i) (n.q i) [toMsg f] none h rfl (h.inv i) rfl
+        (fun a _ hat hn => absurd hat hn) (fun m hm => by cases hm) (fun m hm => by cases hm)
+      have e : (fun x => if x = i then n.ca i else n.ca x) = n.ca := by
+        funext x; by_cases hx : x = i <;> simp [hx]
+      rw [e] at this
+      exact this
+    · exact h
+
+/-- … hence every reachable state satisfies it -/
+theorem run_inv (n : Net) (es : List CaNet.Ev) (h : NetInv n) : NetInv (CaNet.run n es) := by
+  induction es generalizing n with
+  | nil => exact h
+  | cons e es ih => exact ih _ (step_inv n e h)
+
+/-- a network in which nobody has started claiming yet (any number of nodes, any NAMEs, any preferred addresses,
+    arbitrary-address-capable or not) -/
+def Fresh (n : Net) : Prop :=
+  (∀ i, (n.ca i).state = NONE) ∧ (∀ i, Lemmas.Name.WF (n.ca i).name) ∧ ∀ i, n.q i = []
+
+theorem fresh_inv (n : Net) (h : Fresh n) : NetInv n := by
+  have hd := states_distinct
+  obtain ⟨h1, h2, _⟩ := h
+  refine ⟨h2, fun i hn => absurd ((h1 i).symm.trans hn) hd.1, ?_⟩
+  intro i j a _ _ hat
+  rcases hat with ⟨e, _⟩ | ⟨e, _⟩
+  · exact absurd ((h1 i).symm.trans e) hd.2.2.2.1
+  · exact absurd ((h1 i).symm.trans e) hd.1
+
+/-- UNIQUE ADDRESSES AT QUIESCENCE (network level): start from any network in which nobody has claimed yet; let claim
+    timers fire, claims be delivered (per-receiver bus order) and requests for address claimed be answered in ANY
+    interleaving, for any number of nodes.  Whenever all claims on the bus have been handled, two different nodes that
+    are both "at" the same address — operational there, or waiting for a veto on it — have the same NAME; with pairwise
+    different NAMEs (the property's premise) no two CAs hold, or are about to hold, the same address -/
+theorem c04_unique_at_quiescence (n0 : Net) (h0 : Fresh n0) (es : List CaNet.Ev) (i j a : Nat) (hij : i ≠ j) (ha : a < 256)
+    (hquiet : ∀ k, (CaNet.run n0 es).q k = [])
+    (hi : At ((CaNet.run n0 es).ca i) a) (hj : At ((CaNet.run n0 es).ca j) a) :
+    Name.value ((CaNet.run n0 es).ca i).name = Name.value ((CaNet.run n0 es).ca j).name := by
+  have hinv := run_inv n0 es (fresh_inv n0 h0)
+  rcases Nat.lt_trichotomy (Name.value ((CaNet.run n0 es).ca i).name) (Name.value ((CaNet.run n0 es).ca j).name) with hlt | heq | hgt
+  · rcases hinv.pair i j a hij ha hi hj hlt with h | h
+    · rw [hquiet j] at h; cases h
+    · rw [hquiet i] at h; cases h
+  · exact heq
+  · rcases hinv.pair j i a (fun e => hij e.symm) ha hj hi hgt with h | h
+    · rw [hquiet i] at h; cases h
+    · rw [hquiet j] at h; cases h
+
+/-- the premises are satisfiable: a fresh network of any size exists -/
+example : Fresh { ca := fun k => Ca.new (Name.ofValue (k % 1000)) (some 128) false, q := fun _ => [] } :=
+  ⟨fun _ => rfl, fun _ => Lemmas.name_ofValue_wf _, fun _ => rfl⟩
+
+/-- THE LOWEST NAME KEEPS A CONTESTED ADDRESS (network level): a node that is "at" address `a` is still at `a` after ANY
+    event of the network, unless the event is the node itself handling a claim for `a` from a numerically LOWER NAME -/
+theorem c04_at_kept_by_step (n : Net) (h : NetInv n) (e : CaNet.Ev) (i a : Nat) (hat : At (n.ca i) a)
+    (hnolower : ∀ m rest, e = .deliver i → n.q i = m :: rest → m.sa = a →
+      Name.value (n.ca i).name ≤ Name.value (Name.ofBytes m.data)) :
+    At ((step n e).ca i) a := by
+  have hd := states_distinct
+  cases e with
+  | tick k =>
+    simp only [step]
+    by_cases hk : i = k
+    · subst hk
+      simp only [if_true]
+      rcases hat with ⟨h1, h2⟩ | ⟨h1, h2⟩
+      · obtain ⟨q1, q2, _⟩ := (c04_claim_progress_any (n.ca i)).1 h1
+        exact Or.inr ⟨q1, by rw [q2, h2]⟩
+      · rw [((c04_claim_progress_any (n.ca i)).2 (Or.inl h1)).1]; exact Or.inr ⟨h1, h2⟩
+    · simp only [hk, if_false]; exact hat
+  | deliver k =>
+    simp only [step]
+    cases hq : n.q k with
+    | nil => exact hat
+    | cons m rest =>
+      simp only
+      by_cases hk : i = k
+      · subst hk
+        simp only [if_true]
+        by_cases hsa : m.sa = a
+        · have hle := hnolower m rest rfl hq hsa
+          rw [hsa]
+          rcases Nat.lt_or_eq_of_le hle with hlt | heq
+          · rw [(c04_keeps_against_higher _ a m.data hat hlt).1]; exact hat
+          · rw [c04_same_name_ignored _ a m.data heq]; exact hat
+        · have hnot : ¬ At (n.ca i) m.sa := by
+            intro hat2
+            rcases hat with ⟨h1, h2⟩ | ⟨h1, h2⟩ <;> rcases hat2 with ⟨g1, g2⟩ | ⟨g1, g2⟩
+            · exact hsa (g2.symm.trans h2)
+            · exact hd.2.1 (h1.symm.trans g1)
+            · exact hd.2.1 (g1.symm.trans h1)
+            · rw [h2] at g2; exact hsa (Option.some.inj g2).symm
+          rw [c04_foreign_claim_ignored _ _ _ hnot]; exact hat
+      · simp only [hk, if_false]; exact hat
+  | request k sa dest data =>
+    simp only [step]
+    split <;> exact hat
+
+
+end net
 
 end J1939.Props.C04
